@@ -34,15 +34,16 @@ SHM = '/dev/shm' if os.path.isdir('/dev/shm') else tempfile.gettempdir()
 
 
 def tdir_ids():
-    return ['home'] + ['t1:' + r for r in REGIONS] + ['t2:' + r for r in REGIONS] + ['c:' + r for r in REGIONS]
+    return (['home'] + ['t1:' + r for r in REGIONS] + ['t2:' + r for r in REGIONS] + ['c:' + r for r in REGIONS] +
+            ['lhome', 'ohome'] + ['o1:' + r for r in REGIONS] + ['o2:' + r for r in REGIONS])
 
 
 def tkind(t):
-    return 'home' if t == 'home' else {'t1': 't1', 't2': 't2', 'c': 'c'}[t.split(':')[0]]
+    return t if t in ('home', 'lhome', 'ohome') else {'t1': 't1', 't2': 't2', 'c': 'c', 'o1': 'o1', 'o2': 'o2'}[t.split(':')[0]]
 
 
 def treg(t):
-    return 'H' if t == 'home' else t.split(':')[1]
+    return 'H' if t in ('home', 'lhome') else 'R' if t == 'ohome' else t.split(':')[1]
 
 
 # ---------------------------------------------------------------------------
@@ -119,6 +120,8 @@ class Conc(object):
             pair = (pair[1], pair[0])
         self.names = {'a': pair[0], 'b': pair[1]}
         self.uid = uid if uid is not None else rnd.choice([0, 1000, 1000, 4242])
+        # the other user of the password database (--all-users); 100 / 10001: one uid is a prefix of the other as text
+        self.uid2 = random.Random('uid2|%s' % seed).choice([u for u in (0, 1001, 65534, 100, 10001) if u != self.uid])
         self.t0 = t0 if t0 is not None else T0_POOL[seed % len(T0_POOL)]
         self.variant_seed = rnd.randrange(1 << 30) if variants is None else variants
         self.umask = rnd.choice([0o022, 0o022, 0o000, 0o077])
@@ -263,24 +266,41 @@ class World(object):
             r = RPARENT[r]
         return r
 
+    def ohome(self):
+        return os.path.join(self.root, 'ohome', 'o')
+
+    def pwall(self):
+        """the password database the commands see (--all-users): [name, uid, home directory]"""
+        return [['nobody-here', 65533, '/nonexistent'], ['u', self.conc.uid, self.home()], ['o', self.conc.uid2, self.ohome()],
+                ['ghost', 61234, os.path.join(self.root, 'ohome', 'never-created')]]
+
+    def tdirs(self):
+        """the trash directory ids of this world: 'lhome' ($HOME/.local/share/Trash beside an $XDG_DATA_HOME that points
+        elsewhere) is 'home' itself unless XDG_DATA_HOME is set"""
+        return [t for t in tdir_ids() if not (t == 'lhome' and self.cfg['xdg'] != 'set')]
+
     def tpath(self, t):
         k = tkind(t)
         if k == 'home':
             if self.cfg['xdg'] == 'set':
                 return os.path.join(self.home(), 'xdg', 'Trash')
             return os.path.join(self.home(), '.local', 'share', 'Trash')
+        if k == 'lhome':
+            return os.path.join(self.home(), '.local', 'share', 'Trash')
+        if k == 'ohome':
+            return os.path.join(self.ohome(), '.local', 'share', 'Trash')
         r = treg(t)
-        if k == 't1':
-            return os.path.join(self.rpath(r), '.Trash', str(self.conc.uid))
-        if k == 't2':
-            return os.path.join(self.rpath(r), '.Trash-%d' % self.conc.uid)
+        if k in ('t1', 'o1'):
+            return os.path.join(self.rpath(r), '.Trash', str(self.conc.uid if k == 't1' else self.conc.uid2))
+        if k in ('t2', 'o2'):
+            return os.path.join(self.rpath(r), '.Trash-%d' % (self.conc.uid if k == 't2' else self.conc.uid2))
         return os.path.join(self.rpath(r), 'ct')
 
     def tpath_real(self, t):
         """where the trash directory really lives ($topdir/.Trash may be a symlink)"""
         p = self.tpath(t)
-        if tkind(t) == 't1' and self.cfg['top'].get(treg(t), 'absent').startswith('link'):
-            return os.path.join(self.rpath(treg(t)), '.realtrash', str(self.conc.uid))
+        if tkind(t) in ('t1', 'o1') and self.cfg['top'].get(treg(t), 'absent').startswith('link'):
+            return os.path.join(self.rpath(treg(t)), '.realtrash', str(self.conc.uid if tkind(t) == 't1' else self.conc.uid2))
         if tkind(t) == 'home' and self.cfg.get('hlink', 'none') != 'none':
             return os.path.join(self.rpath(self.cfg['hlink']), '.xdg-remote', 'Trash')
         if tkind(t) == 'home' and self.cfg['xdg'] == 'set' and self.conc.xdg_link:
@@ -312,7 +332,7 @@ class World(object):
     def tbase(self, t):
         """directory that relative Path= values are relative to (None: absolute paths are written)"""
         k = tkind(t)
-        if k == 'home':
+        if k in ('home', 'lhome', 'ohome'):
             return None
         if self.td_linked(t):
             return self.rpath('R')         # the volume of the path as spelled (the link lives on the root volume)
@@ -332,7 +352,7 @@ class World(object):
         return e
 
     def shim_cfg(self, **kw):
-        c = {'root': self.root, 'mounts': self.mounts(), 'uid': self.conc.uid, 'seed': self.conc.seed}
+        c = {'root': self.root, 'mounts': self.mounts(), 'uid': self.conc.uid, 'seed': self.conc.seed, 'pwall': self.pwall()}
         c.update(kw)
         return c
 
@@ -706,7 +726,7 @@ class World(object):
                     dirs.append({'r': r, 'd': d})
         tex, items, orph, strays, junk = [], [], [], [], []
         slots = {}
-        for t in tdir_ids():
+        for t in self.tdirs():
             tp = os.fsencode(self.tpath_real(t))
             rel = rel_of(tp)
             if rel not in snap:
@@ -722,7 +742,7 @@ class World(object):
                     consume(rel)
                     continue
                 consumed.add(rel)
-                if tkind(t) in ('home', 't1', 't2', 'c') and rel not in self.baseline:
+                if rel not in self.baseline:
                     anomalies.append('trash dir %s created without files/ and info/' % t)
                 continue
             tex.append(t)
@@ -843,7 +863,7 @@ class World(object):
                 slots[(t, slot)] = ('orph', o)
         if check_outside and self.baseline is not None:
             allowed_new = set()
-            for t in tdir_ids():
+            for t in self.tdirs():
                 p = rel_of(os.fsencode(self.tpath_real(t)))
                 while b'/' in p:
                     p = p.rsplit(b'/', 1)[0]
@@ -892,14 +912,14 @@ class World(object):
                     lp = self.lpath(r, d, n)[len(rootb) + 1:]
                     if relb == lp or relb.startswith(lp + b'/'):
                         return 'src:%s/%s/%s' % (r, d, n)
-        for t in tdir_ids():
+        for t in self.tdirs():
             tp = os.fsencode(self.tpath_real(t))[len(rootb) + 1:]
             if relb == tp or relb.startswith(tp + b'/'):
                 return 'trash'
             p = tp
             while b'/' in p:
                 p = p.rsplit(b'/', 1)[0]
-                if relb == p and p not in (b'home', b'home/u', b'm1', b'm1/n2'):
+                if relb == p and p not in (b'home', b'home/u', b'm1', b'm1/n2', b'ohome', b'ohome/o'):
                     return 'trash'
         for r in REGIONS:
             for d in DIRS:
@@ -923,7 +943,7 @@ class World(object):
                     lp = self.lpath(r, d, n)[len(rootb) + 1:]
                     if k == lp or k.startswith(lp + b'/'):
                         return True
-        for t in tdir_ids():
+        for t in self.tdirs():
             tp = os.fsencode(self.tpath_real(t))[len(rootb) + 1:]
             if k.startswith(tp + b'/files/') or k.startswith(tp + b'/info/'):
                 return True
